@@ -1,4 +1,5 @@
 """C02 Formatting never changes what the program means - static necessary conditions."""
+import r_keep
 import r_tree
 import r_paren
 import r_arms
@@ -25,4 +26,4 @@ def run(ctx):
     return [r_tree.rule_variant(ctx, "C02"), r_tree.rule_sym(ctx, "C02"),
             r_paren.rule_paren(ctx, "C02", parts=("table", "oracle", "context-lost")),
             r_tree.rule_semi(ctx, "C02"), r_tree.rule_cond(ctx, "C02"), r_typaren.rule_typaren(ctx, "C02"), r_arms.rule_arms(ctx, "C02"),
-            r_regex.rule_regex(ctx, "C02"), r_opt.rule_call_parens(ctx, "C02"), r_tree.rule_element(ctx, "C02"), r_tree.rule_simple_block(ctx, "C02"), r_paren.rule_condition_parens(ctx, "C02"), r_tree.rule_positional(ctx, "C02"), r_layout.rule_comment_layout(ctx, "C02")]
+            r_regex.rule_regex(ctx, "C02"), r_opt.rule_call_parens(ctx, "C02"), r_tree.rule_element(ctx, "C02"), r_tree.rule_simple_block(ctx, "C02"), r_paren.rule_condition_parens(ctx, "C02"), r_tree.rule_positional(ctx, "C02"), r_layout.rule_comment_layout(ctx, "C02"), r_keep.rule_getter_setter_fields(ctx, "C02")]
